@@ -14,22 +14,35 @@ CFG = {'streams': [{'name': 'C02',
          'stanzas after the defining ones; graph nodes are never rendered to text); graphs compared up to renumbering by colour refinement + bounded '
          'search (inconclusive searches are counted, never passed as violations); non-trivial = both modes succeed with at least 3 nodes and the '
          'program uses a scoped variable',
- 'explanation': 'Theorems: (1) strict_lazy_same_graph_partial, the first whole-run theorem relating Model/Strict.v and Model/Lazy.v: on the '
+ 'explanation': 'Theorems: (1) strict_lazy_same_graph_partial, whole-run theorem relating Model/Strict.v and Model/Lazy.v: on the '
                 'fragment without scoped variables and with graph-pure function calls (every stdlib function except `node`, '
                 'stdlib_graph_pure_partial) — local let/var/set, if, for, scan, comprehensions, print, node, edge, attr and attribute shorthands '
                 'all included — whenever strict execution succeeds, lazy execution of the same file on the same matches (stanza by stanza in '
                 'strict order, no debug attributes, no cancellation) never fails, never panics and, unless the model runs out of fuel, returns '
                 'EXACTLY the strict graph (equality, not only isomorphism); strict_lazy_adequate_partial: on the same fragment some lazy model fuel '
-                'suffices and from that fuel on the lazy run IS Ok with the strict graph. Proof: a store valuation gives every thunk its value, lazy values '
-                'DENOTE strict values, forcing a denoting value yields exactly that value and only memoises (forcing lemma), pending edge/attr '
+                'suffices and from that fuel on the lazy run IS Ok with the strict graph. '
+                '(1b) strict_lazy_same_graph_scoped_partial / strict_lazy_adequate_scoped_partial: the same two statements on the fragment WITH '
+                'SCOPED VARIABLES: immutable scoped definitions (let <scope>.x = e, node <scope>.x) whose scope expression is pure, scoped reads '
+                'in deferred positions (values of let/var/set, attribute values, edge/attr endpoints, print arguments, comprehension elements, call '
+                'arguments, scope expressions of other reads), eager positions (if conditions, scan subjects, for/comprehension lists) pure — pure = '
+                'no scoped read and only unscoped variables whose name is declared pure, every binding of a pure name having a pure right-hand side — '
+                'and inherited names under the side condition inh_antichain on the FINAL strict scoped store (no node defining an inherited name has '
+                'a proper ancestor defining it too; vacuous without inherited names). Proof: a world gives every thunk its value and a purity flag '
+                'and lists the scoped definitions executed so far; lazy values DENOTE strict values (a scoped read denotes the value of a definition '
+                'whose thunk is an earlier location); cells stay unforced during the execution phase; forcing a cell evaluates only pure scopes '
+                '(level-0 forcing lemma, no re-entry) and finds one definition per (node, name) because strict succeeded; pending edge/attr '
                 'statements denote the graph operations strict already performed, and edge insertions commute in front of attribute insertions. '
                 '(2) building blocks: both interpreters bind captures and regex captures identically; thunks are forced at most once and cycles are '
-                'reported. (3) K7: the full statement is refuted for cyclic scoped-variable definitions. Direct stream: File::execute strict vs '
+                'reported. (3) K7: the full statement is refuted for cyclic scoped-variable definitions (and Proofs/SL2Example.v k7b: the cycle may '
+                'go through local variables, so definition scopes must be DEEPLY pure). Direct stream: File::execute strict vs '
                 'lazy on every generated fragment program. Correspondence: lazy implementation vs Model/Lazy.v.',
- 'partial': ['strict_lazy_agree is proved only on the fragment of strict_lazy_same_graph_partial; NOT proved: any use of scoped variables '
-             '(EScoped / VarS; the full statement is false for cyclic definitions, K7); `(node)` calls inside expressions, where only '
-             'isomorphism instead of equality can hold; an arbitrary interleaving of the matches of different stanzas as the merged file query '
-             'reports them (the theorem feeds the lazy run the strict matches stanza by stanza); debug attributes and cancellation budgets',
+ 'partial': ['strict_lazy_agree is proved only on the fragments of strict_lazy_same_graph_partial and strict_lazy_same_graph_scoped_partial; NOT '
+             'proved: mutable scoped variables (lazy rejects them); eager positions or definition scopes that depend on scoped variables (the full '
+             'statement is false for cyclic definitions, K7); inherited names when a definer has a defining proper ancestor in the final store '
+             '(the proved side condition is stronger than "not defined on a nearer node AFTER being read": it also forbids shadowing definitions '
+             'made before the read); `(node)` calls inside expressions, where only isomorphism instead of equality can hold; an arbitrary '
+             'interleaving of the matches of different stanzas as the merged file query reports them (the theorems feed the lazy run the strict '
+             'matches stanza by stanza); debug attributes and cancellation budgets',
              'strict_fail_lazy_fail (the failure direction) is not proved; explored by the direct stream'],
  'assumptions': ['tree-sitter queries are an external: raw matches are recorded by calling QueryCursor::matches directly on the stanza queries and '
                  'on the merged file query',
